@@ -210,6 +210,9 @@ class OpenRFile(io.BytesIO):
         raise ReadsBeyondRequest("readlines()")
 
 
+SEGMENT_HOOK = [None]
+
+
 class _SegmentedRaw(io.RawIOBase):
     """the receiving side of a TCP connection on which the client's bytes arrive in segments of at most `seg` bytes; at
     the end of what the client sent: EOF (client closed its sending side) or, with open_conn, ReadsBeyondRequest"""
@@ -217,11 +220,15 @@ class _SegmentedRaw(io.RawIOBase):
     def __init__(self, data, seg, open_conn):
         super().__init__()
         self.data, self.pos, self.seg, self.open_conn = bytes(data), 0, max(1, seg), open_conn
+        self.calls = 0
 
     def readable(self):
         return True
 
     def readinto(self, b):
+        self.calls += 1
+        if SEGMENT_HOOK[0] is not None:
+            SEGMENT_HOOK[0](self)  # a harness-owned schedule point: "the next segment of the request arrives now"
         if self.pos >= len(self.data):
             if self.open_conn:
                 raise ReadsBeyondRequest("read after all %d bytes of the request" % len(self.data))
